@@ -104,6 +104,12 @@ func (c *Catalog) tagsFromTagsDirective(d *directive.Directive) ([]*Tag, *jerr.J
 			return nil, d.KeywordError(fmt.Sprintf("%s %q", jerr.TagNotFound, tn))
 		}
 
+		for _, used := range tt {
+			if used == t { // the same tag twice would list the interaction twice
+				return nil, d.KeywordError(fmt.Sprintf(jerr.DuplicateNames, name))
+			}
+		}
+
 		tt = append(tt, t)
 	}
 
